@@ -94,7 +94,7 @@ def translateLine (tbl : Option CodonTable) (complete met dna : String) : String
       else if complete == "1" then
         showE ((translateComplete t s.codes).map fun p => bytesToString (p.filterMap (prot[·]?)))
       else
-        match indexOf? prot 42, indexOf? prot 77 with
+        match indexOf? prot Gen.C03.stopSymbol, indexOf? prot Gen.C03.metSymbol with
         | some stopC, some metC => showE ((translateOrfs t stopC metC (met == "1") s.codes).map showOrfs)
         | _, _ => errS .alphabetError
 
@@ -315,7 +315,7 @@ def step (st : State) (line : String) : State × String :=
     | some ts => pushSeq st ((protNew3 prot d3 ts).map seqOfNat) showSyms
     | none => pure "bad-op"
   | ["s_rmstops", i] =>
-    match i.toNat?.bind (st.regs[·]?), indexOf? prot 42 with
+    match i.toNat?.bind (st.regs[·]?), indexOf? prot Gen.C03.stopSymbol with
     | some s, some stopC => pushSeq st (.ok { s with codes := s.codes.filter (· != stopC) }) showSyms
     | _, _ => pure "ERR:noreg"
   | ["s_pos", i] =>
@@ -464,7 +464,7 @@ def step (st : State) (line : String) : State × String :=
       else if complete == "1" then
         pure (showE ((translateComplete t s.codes).map fun p => bytesToString (p.filterMap (prot[·]?))))
       else
-        match indexOf? prot 42, indexOf? prot 77 with
+        match indexOf? prot Gen.C03.stopSymbol, indexOf? prot Gen.C03.metSymbol with
         | some stopC, some metC => pure (showE ((translateOrfs t stopC metC (met == "1") s.codes).map showOrfs))
         | _, _ => pure (errS .alphabetError)
     | none, _ => pure "ERR:notable"
